@@ -58,6 +58,8 @@ pub struct MemOutput {
     pub flushes: usize,
     /// shared view of `poll_writes` (readable while the output is owned by a CloneOutput)
     pub counter: Arc<std::sync::atomic::AtomicUsize>,
+    /// accept at most this many bytes per poll_write (like tokio::fs::File's 2 MiB buffer); 0 = unlimited
+    pub max_write: usize,
 }
 
 impl MemOutput {
@@ -77,6 +79,7 @@ impl MemOutput {
             set_len_calls: 0,
             flushes: 0,
             counter: Arc::new(std::sync::atomic::AtomicUsize::new(0)),
+            max_write: 0,
         }
     }
     pub fn with_faults(mut self, f: Vec<WriteFault>) -> Self {
@@ -162,9 +165,10 @@ impl AsyncWrite for MemOutput {
                 Poll::Ready(Ok(0))
             }
             _ => {
-                let b = buf.to_vec();
+                let n = if self.max_write > 0 { buf.len().min(self.max_write) } else { buf.len() };
+                let b = buf[..n].to_vec();
                 self.apply(&b);
-                Poll::Ready(Ok(buf.len()))
+                Poll::Ready(Ok(n))
             }
         }
     }
